@@ -94,6 +94,19 @@ type Spec struct {
 	// runtime, as --psdir=PATH does verbatim for absolute paths: "" clean, "slash"
 	// trailing slash, "dot" a /./ component, "dslash" a doubled separator
 	PsdirSpelling string `json:"psdir_spelling"`
+	// OutsSpelling: how stage code spells its _outs: "" as encoding/json does, "solidus"
+	// with every / written \/ (json-c, PHP, perl's escape_slash), "unicode" with / written \u002f
+	OutsSpelling string `json:"outs_spelling"`
+	// UncleanPaths: stage code reports the files it wrote with a doubled separator or a
+	// /./ component in front of the base name
+	UncleanPaths bool `json:"unclean_paths"`
+	// LinkNode: this directory below the pipestance (e.g. "TOP/SUB") is a symbolic link to
+	// storage elsewhere from before the first step (part of a pipestance moved to another volume)
+	LinkNode string `json:"link_node"`
+	// LinkPrev: the program is first run to completion in another pipestance directory
+	// (VDR disabled); in the pipestance under test this directory (e.g. "TOP/SUB") is a
+	// symbolic link to the finished one of the earlier run, as users do to reuse results
+	LinkPrev string `json:"link_prev"`
 	// RelFiles: top-level output name -> path relative to the working directory mrp is started
 	// in; the file is created there (it is named by an invocation argument that the pipeline
 	// passes through) and must be available under outs/<name> afterwards
@@ -111,6 +124,9 @@ type Spec struct {
 
 // Result is what a run reports besides its trace.
 type Result struct {
+	psdir    string            // where the pipestance was (kept runs)
+	files    map[string]string // file key -> path, as the driver knows them at the end
+	fileJobs map[string]string
 	Name     string                   `json:"name"`
 	State    string                   `json:"state"`
 	States   []string                 `json:"states"` // final state of every incarnation
@@ -156,6 +172,7 @@ type Driver struct {
 	ps        *core.Pipestance
 	rt        *core.Runtime
 	psdir     string
+	prevDir   string // canonical directory of linked-in results of an earlier run
 	psid      string
 	mu        sync.Mutex
 	jobs      []*job          // submitted, in submission order
@@ -412,6 +429,9 @@ func (d *Driver) vdrRemove(kv []string) {
 	}
 	// (a path whose parent is gone already cannot be resolved: compare both spellings)
 	outside := !inside(canon(p), canon(d.psdir)) && !inside(p, d.psdir) && !inside(canon(p), d.psdir)
+	if d.prevDir != "" && inside(canon(p), d.prevDir) {
+		outside = true // results of another pipestance, linked in
+	}
 	d.fmu.Lock()
 	d.removed.Entries += entries
 	d.removed.Bytes += bytes
@@ -444,7 +464,25 @@ func (d *Driver) resolve(f FileRef) string {
 		// a stage that reports its directory outputs with a trailing slash
 		return p + "/"
 	}
+	if d.spec.UncleanPaths && p != "" && path.IsAbs(p) {
+		// a stage that builds its paths by concatenation
+		if len(f.Name)%2 == 0 {
+			return path.Dir(p) + "//" + path.Base(p)
+		}
+		return path.Dir(p) + "/./" + path.Base(p)
+	}
 	return p
+}
+
+// spellOuts: the bytes of an _outs file in the spelling the spec asks for.
+func (d *Driver) spellOuts(b []byte) []byte {
+	switch d.spec.OutsSpelling {
+	case "solidus":
+		return []byte(strings.ReplaceAll(string(b), "/", "\\/"))
+	case "unicode":
+		return []byte(strings.ReplaceAll(string(b), "/", "\\u002f"))
+	}
+	return b
 }
 
 // checkFiles: which of the files named in v are missing or damaged.
@@ -787,7 +825,7 @@ func (d *Driver) end(j *job) {
 				outs = d.writeFiles(j, outs)
 			}
 			b, _ := json.Marshal(outs)
-			writeFile(path.Join(md, "_outs"), b)
+			writeFile(path.Join(md, "_outs"), d.spellOuts(b))
 		}
 		writeFile(path.Join(md, "_complete"), []byte("done"))
 		d.journal(j, "complete")
@@ -939,6 +977,20 @@ func Run(spec *Spec, workdir string) (res *Result) {
 		defer os.RemoveAll(root)
 	}
 	d.psdir = path.Join(root, "ps")
+	res.psdir = d.psdir
+	var prev *Result
+	if spec.LinkPrev != "" {
+		ps := *spec
+		ps.LinkPrev, ps.LinkNode, ps.Vdr, ps.Keep, ps.Name = "", "", "disable", "prev", spec.Name+"#prev"
+		ps.Restart, ps.Faults, ps.Orphans, ps.VdrGate = false, nil, false, false
+		ps.Sched = Sched{Kind: "random", Seed: spec.Sched.Seed + 1, PEnv: 0.5}
+		prev = Run(&ps, root)
+		if prev.State != string(core.Complete) {
+			res.Error = "the earlier run whose results are linked in did not complete: " + prev.State + " " + prev.Error
+			return
+		}
+		util.SetPrintLogger(devNull{})
+	}
 	if spec.PhysPaths {
 		os.MkdirAll(path.Join(root, "real"), 0755)
 		os.Symlink("real", path.Join(root, "link"))
@@ -1002,6 +1054,40 @@ func Run(spec *Spec, workdir string) (res *Result) {
 	}
 	d.ps = ps
 	ctx := context.Background()
+	if prev != nil {
+		nodeDir := path.Join(d.psdir, spec.LinkPrev)
+		os.RemoveAll(nodeDir)
+		os.MkdirAll(path.Dir(nodeDir), 0755)
+		if err := os.Symlink(path.Join(prev.psdir, spec.LinkPrev), nodeDir); err != nil {
+			res.Error = "link prev: " + err.Error()
+			return
+		}
+		d.prevDir = canon(path.Join(prev.psdir, spec.LinkPrev))
+		for k, fp := range prev.files {
+			if inside(fp, d.prevDir) {
+				d.filePath[k] = fp
+				d.fileJob[k] = prev.fileJobs[k]
+			}
+		}
+	}
+	if spec.LinkNode != "" {
+		nodeDir := path.Join(d.psdir, spec.LinkNode)
+		target := path.Join(root, "elsewhere", path.Base(spec.LinkNode))
+		os.MkdirAll(path.Dir(target), 0755)
+		if _, err := os.Lstat(nodeDir); err == nil {
+			if err := os.Rename(nodeDir, target); err != nil {
+				res.Error = "link node: " + err.Error()
+				return
+			}
+		} else {
+			os.MkdirAll(target, 0755)
+			os.MkdirAll(path.Dir(nodeDir), 0755)
+		}
+		if err := os.Symlink(target, nodeDir); err != nil {
+			res.Error = "link node: " + err.Error()
+			return
+		}
+	}
 	ps.LoadMetadata(ctx)
 	d.rng = rand.New(rand.NewSource(spec.Sched.Seed))
 	d.loop(ctx)
@@ -1245,12 +1331,17 @@ func (d *Driver) finalSweep(ctx context.Context) {
 			gone = append(gone, k)
 		} else if string(b) != string(fileContent(k)) {
 			damaged = append(damaged, k)
+		} else if (d.spec.LinkNode != "" || d.prevDir != "") && !d.outsideOf[k] && !inside(p, canon(d.psdir)) {
+			// behind the directory link: mrp does not clean through links
 		} else {
 			present = append(present, k)
 		}
 	}
 	var extras, tmps []string
 	for j, p := range d.extras {
+		if d.spec.LinkNode != "" && !inside(canon(p), canon(d.psdir)) {
+			continue
+		}
 		if _, err := os.Stat(p); err == nil {
 			if i := strings.Index(j, "##"); i >= 0 {
 				j = j[:i]
@@ -1261,6 +1352,9 @@ func (d *Driver) finalSweep(ctx context.Context) {
 		}
 	}
 	for j, p := range d.tmps {
+		if d.spec.LinkNode != "" && !inside(canon(p), canon(d.psdir)) {
+			continue
+		}
 		if _, err := os.Lstat(path.Dir(p)); err == nil {
 			if ents, _ := os.ReadDir(path.Dir(p)); len(ents) > 0 {
 				tmps = append(tmps, j)
@@ -1606,5 +1700,10 @@ func (d *Driver) finish(ctx context.Context) {
 	d.ps.Unlock()
 	if d.spec.Keep != "" {
 		d.tr.WriteTo(path.Join(path.Dir(d.psdir), "trace.ndjson"))
+	}
+	res.files, res.fileJobs = map[string]string{}, map[string]string{}
+	for k, v := range d.filePath {
+		res.files[k] = v
+		res.fileJobs[k] = d.fileJob[k]
 	}
 }
